@@ -188,4 +188,15 @@ PROPS = {
             {"name": "c14.groups", "pkg": ROUTING, "test": "TestVerifC14Groups", "shards_t": 16, "shards_q": 4, "crash_is_violation": True},
         ],
     },
+    "C05": {
+        "level": "exploration",
+        "technique": "stateful rapid property test on the node simulator with a reference model of 'accepted, not yet transmitted' + store inspection after every event; forced interleaving of concurrent failure reports through a schedule hook",
+        "level_text": "Event histories (submissions, receptions, peers appearing/disappearing, send outcomes, retry and cleaning ticks, restarts) are played on a real Core per routing algorithm; after every event the store's pending items are compared with the model and the per-peer send logs are checked for the destination and epidemic clauses. Concurrent failure reports are forced into the read-read-write-write order.",
+        "level_note": "cron jobs are played as explicit events (an asynchronous tick in the middle of an event is not explored); lifetimes of one hour, so expiry never interferes; bounded-exhaustive enumeration of short histories is replaced by random histories of 3..16 events",
+        "assumptions": ["a bundle may leave the store once any convergence layer reported a successful transmission (as the statement says)"],
+        "units": [
+            {"name": "c05.histories", "pkg": ROUTING, "test": "TestVerifC05Histories", "shards_t": 16, "shards_q": 6, "crash_is_violation": True},
+            {"name": "c05.concurrent-failures", "pkg": ROUTING, "test": "TestVerifC05ConcurrentFailures", "shards_t": 4, "shards_q": 2, "crash_is_violation": True},
+        ],
+    },
 }
